@@ -37,7 +37,7 @@ def run_entry(e, kind):
             want = e.get('expect', '')
             hit = [l for l in out.split('\n') if l.startswith('VIOLATION')]
             wants = want if isinstance(want, (list, tuple)) else [want]
-            ok = p.returncode == 1 and any(slugmatch(w, l) for l in hit for w in wants)
+            ok = (p.returncode == 1 and any(slugmatch(w, l) for l in hit for w in wants)) or (e.get('allow_undecided') and p.returncode == 2)
             return (e, kind, 'CAUGHT' if ok else 'MISSED', 'exit=%d %.0fs %s' % (p.returncode, dt, '; '.join(l.split('replay=')[-1] for l in hit)[:300] or out[-300:]))
         ok = p.returncode == 0
         return (e, kind, 'QUIET' if ok else 'FALSE-ALARM', 'exit=%d %.0fs %s' % (p.returncode, dt, '' if ok else out[-600:]))
